@@ -183,7 +183,11 @@ def one_run(args):
 
 def tokenise(cap, pw):
     recs = []
+    grams = {pw[i:i + 16] for i in range(len(pw) - 15)} if len(pw) >= 64 else set()
     for name, msg in cap.records:
+        if grams and pw not in msg and any(msg[i:i + 16] in grams for i in range(max(0, len(msg) - 15))):
+            recs.append({"logger": name, "toks": ["<PW>"], "stars": []})   # a piece of a long password is the password
+            continue
         toks, stars = [], []
         for part in re.split("(" + re.escape(pw) + ")", msg):
             if part == pw:
@@ -200,6 +204,52 @@ def tokenise(cap, pw):
     # (peer port numbers carry nothing; with two connections in a run the order in which they are torn down at the end is not fixed)
     norm = lambda m: re.sub(r"(127\.0\.0\.1|::1)[: ]\d{4,5}", r"\1:<port>", m)
     return {"crash": None, "records": recs, "msgs": [[n, norm(m)] for n, m in cap.records]}
+
+
+def overlong_run(args):
+    """A PASS line longer than the server's line limit, arriving in pieces a few loop iterations apart (raw wire): whatever the
+    server makes of the pieces, none of them is logged."""
+    pw, cuts, gap = args
+    cap = Cap()
+    root = logging.getLogger()
+    olds = (root.level, logging.getLogger("aioftp.server").level)
+    root.addHandler(cap)
+    root.setLevel(logging.DEBUG)
+    logging.getLogger("aioftp.server").setLevel(logging.DEBUG)
+    users = [{"id": "u1", "login": "u1", "pw": pw, "max": 0, "perms": [], "home": [], "base": ["A"]}]
+    cfg = gen.std_cfg(ns=1, users=users)
+
+    async def sc(factory, w):
+        c = factory()
+        await c.connect("127.0.0.1", W.CTL_PORT)
+        await c.stream.write(b"USER u1\r\n")
+        await c.command(None, ("2xx", "3xx", "5xx"))
+        line = ("PASS " + pw + "\r\n").encode("utf-8")
+        pos = 0
+        try:
+            for k in list(cuts) + [len(line)]:
+                await c.stream.write(line[pos:k])
+                pos = k
+                for _ in range(gap):
+                    await asyncio.sleep(0)
+            await asyncio.sleep(1)
+            await c.stream.write(b"PWD\r\n")
+            await asyncio.sleep(1)
+        except OSError:
+            pass
+        return True
+
+    try:
+        out = clientdrv.run_clients(cfg, {"d": [["A"]], "f": []}, {1: sc})
+    finally:
+        root.removeHandler(cap)
+        root.setLevel(olds[0])
+        logging.getLogger("aioftp.server").setLevel(olds[1])
+    if out["crash"]:
+        return {"crash": out["crash"]}
+    t = tokenise(cap, pw)
+    # (what the records say apart from the password: the lengths of the pieces are the same for the twin)
+    return dict(t, observed="overlong", sentlen=len(pw))
 
 
 def scripted_run(args):
@@ -281,6 +331,26 @@ def run(tier, seed):
                       "outcome": "scripted", "observed": a["observed"]})
         straces.append([{k2: v for k2, v in e.items() if k2 != "exc"} for e in a["trace"]])
     chk.cov["evaluations"] += 2 * len(splan)
+    # PASS lines beyond the server's line limit, cut in pieces
+    oplan = []
+    for n in (66000, 70000, 140000):
+        pw = "".join("k%05d" % i for i in range(n // 6))
+        twin = "".join("j%05d" % i for i in range(n // 6))
+        for cuts in ((30000,), (65530,), (65541,), (40000, 66000), (1, 65537, 65538)):
+            for gap in (1, 4):
+                oplan.append((pw, twin, cuts, gap))
+    if tier == "quick":
+        oplan = oplan[::3]
+    ores = corecheck.pool().map(overlong_run, [(x, cuts, gap) for pw, twin, cuts, gap in oplan for x in (pw, twin)], chunksize=2)
+    for k, (pw, twin, cuts, gap) in enumerate(oplan):
+        a, b = ores[2 * k], ores[2 * k + 1]
+        if a["crash"] or b["crash"]:
+            raise RuntimeError("harness failure: %s" % (a["crash"] or b["crash"]))
+        plan.append(("overlong", "<%d chars>" % len(pw), "", "PASS", "overlong", False, "cuts=%s gap=%d" % (list(cuts), gap)))
+        cut = lambda ms: [[n, m if len(m) < 300 else m[:120] + "...<%d>" % len(m)] for n, m in ms]
+        cases.append({"records": a["records"], "pwlen": len(pw), "sentlen": a["sentlen"], "msgs": cut(a["msgs"]), "twin_msgs": cut(b["msgs"]),
+                      "outcome": "overlong", "observed": a["observed"]})
+    chk.cov["evaluations"] += 2 * len(oplan)
     # ... each of these executions is a behaviour of the client protocol model as well
     vres, tot = tlc.validate_plain("TraceClientProto", straces, procs=14, chunk=250)
     chk.add_tlc(tot)
